@@ -106,7 +106,8 @@ def _demoor(ctx, col):
     opening = ("app", "slice", (STATE, T_sub(L, K(1)), T_sub(T_add(L, m), K(1)), NONE))
     in_open = ("app", "slice", (STATE, ZERO, T_sub(L, K(1)), NONE))
     demand = E.elem(EVENT, ZERO)
-    issue = E.attrs.get("_issue_stock")
+    from .common import one_data_attr
+    issue = E.attrs.get(one_data_attr(ctx, cls, "transition", "call", "issuing function selected by issue_policy"))
     sel_ok = issue is not None and issue[0] == "ite" and issue[1] == T_cmp("Eq", K("fifo"), cfgsym("issue_policy")) \
         and issue[2][0] == "method" and issue[2][2].name == "_issue_fifo" and issue[3][0] == "method" and issue[3][2].name == "_issue_lifo"
     io, ifn = ctx.ct.require(cls, "__init__")
